@@ -186,6 +186,29 @@ Definition members_bindable (direct : bytes * sty -> shape -> bool) : list (byte
   | _, _ => false
   end.
 
+(* the data model kind every representation-level value of a type has (None: it varies).  A kinded
+   union is well formed when each member is declared under the kind its values really have. *)
+Definition repr_kind (t : sty) : option bytes :=
+  match t with
+  | TBool => Some (kind_name (DBool true))
+  | TInt => Some (kind_name (DInt 0))
+  | TFloat => Some (kind_name (DFloat 0))
+  | TString => Some (kind_name (DString []))
+  | TBytes => Some (kind_name (DBytes []))
+  | TLink => Some (kind_name (DLink []))
+  | TAny => None
+  | TList _ _ _ => Some (kind_name (DList []))
+  | TMap _ _ _ _ => Some (kind_name (DMap []))
+  | TStruct _ _ SRMap => Some (kind_name (DMap []))
+  | TStruct _ _ SRTuple => Some (kind_name (DList []))
+  | TUnion _ _ URKeyed => Some (kind_name (DMap []))
+  | TUnion _ _ URKinded => None
+  | TEnum _ _ ERString => Some (kind_name (DString []))
+  | TEnum _ _ ERInt => Some (kind_name (DInt 0))
+  end.
+Definition kinded_wf (ms : list (bytes * sty)) : bool :=
+  forallb (fun m => match repr_kind (snd m) with Some k => bytes_eqb (fst m) k | None => false end) ms.
+
 (* [bindable t s]: s (not a pointer) holds t directly *)
 Fixpoint bindable (t : sty) (s : shape) {struct t} : bool :=
   match t with
@@ -199,7 +222,10 @@ Fixpoint bindable (t : sty) (s : shape) {struct t} : bool :=
   | TEnum _ ms _ =>
       (* enums are bound to Go strings; Go integers are accepted by verifyCompatibility for int
          representations but are unreadable at type level (see C19_refuted_int_enum) *)
-      match s with SString => names_nodup (map (fun m => fst (fst m)) ms) | _ => false end
+      match s with
+      | SString => names_nodup (map (fun m => fst (fst m)) ms) && forallb (fun m => (snd m <? two63z)%Z) ms
+      | _ => false
+      end
   | TList _ e nl =>
       match s with
       | SSlice _ es => if nl then nullable_ok (fun _ => bindable e) e es else loc_ok (fun _ => bindable e) e es
@@ -225,6 +251,7 @@ Fixpoint bindable (t : sty) (s : shape) {struct t} : bool :=
       | SStruct _ ss =>
           members_bindable (fun m => bindable (snd m)) ms ss
           && names_nodup (map (fun m => sty_name (snd m)) ms) && names_nodup (map fst ms)
+          && match r with URKinded => kinded_wf ms | URKeyed => true end
       | _ => false
       end
   end.
@@ -307,7 +334,7 @@ Section Ok.
     | TString => match g with GString _ => true | _ => false end
     | TBytes => match g with GBytes _ | GNil => true | _ => false end
     | TLink => match g with GLink _ => true | _ => false end
-    | TAny => match g with GNode _ => true | _ => false end
+    | TAny => match g with GNode DNull => false | GNode _ => true | _ => false end
     | TEnum _ ms _ =>
         match s, g with
         | SString, GString x => match enum_by_name x ms with Some _ => true | None => false end
